@@ -397,6 +397,18 @@ func daemonOps(r *rng, n int) error {
 		}
 		if i == 0 {
 			ops = []string{"O", "S", "S", "F", "S", "T"}
+			serving = false
+		}
+		calls := 0
+		for _, o := range ops {
+			if o == "S" || o == "R" || o == "T" {
+				calls++
+			}
+		}
+		if calls == 0 {
+			// every history makes at least one call: a start in whatever state the address is in
+			ops = append(ops, "S")
+			serving = !occupied
 		}
 		if serving {
 			ops = append(ops, "T")
